@@ -177,7 +177,7 @@ fn k_mont_reduce_sharp() {
 }
 
 // ---------------------------------------------------------------- public wrappers with the heavy internals stubbed
-// (guard logic, RNG use, argument forwarding). BOUNDED only in the context length (<= 300 bytes; Verus covers every length).
+// (guard logic, RNG use, argument forwarding). BOUNDED only in the context length (<= 70_000 bytes; Verus covers every length).
 mod wrap {
     use crate::ml_dsa_44 as P;
     use crate::traits::{KeyGen, Signer, Verifier};
@@ -266,9 +266,9 @@ mod wrap {
     fn k_wrap_sign() {
         let sk = sk0();
         let mut rng = any_rng();
-        let ctx_buf = [0u8; 300];
+        let ctx_buf = [0u8; 70_000];
         let n: usize = kani::any();
-        kani::assume(n <= 300);
+        kani::assume(n <= 70_000);
         let msg = [9u8; 5];
         let r = sk.try_sign_with_rng(&mut rng, &msg, &ctx_buf[..n]);
         if n > 255 {
@@ -291,9 +291,9 @@ mod wrap {
     fn k_wrap_hash_sign() {
         let sk = sk0();
         let mut rng = any_rng();
-        let ctx_buf = [0u8; 300];
+        let ctx_buf = [0u8; 70_000];
         let n: usize = kani::any();
-        kani::assume(n <= 300);
+        kani::assume(n <= 70_000);
         let msg = [9u8; 5];
         let ph = any_ph();
         let want_len: u8 = match ph { Ph::SHA512 => 64, _ => 32 };
@@ -317,9 +317,9 @@ mod wrap {
     #[kani::stub(crate::ml_dsa::verify_internal, stub_verify_internal)]
     fn k_wrap_verify() {
         let pk = pk0();
-        let ctx_buf = [0u8; 300];
+        let ctx_buf = [0u8; 70_000];
         let n: usize = kani::any();
-        kani::assume(n <= 300);
+        kani::assume(n <= 70_000);
         let b: bool = kani::any();
         unsafe { VI_RESULT = b; VI_SEEN = [0u8; 8]; }
         let sig = [0u8; P::SIG_LEN];
@@ -336,9 +336,9 @@ mod wrap {
     #[kani::stub(crate::hashing::hash_message, stub_hash_message)]
     fn k_wrap_hash_verify() {
         let pk = pk0();
-        let ctx_buf = [0u8; 300];
+        let ctx_buf = [0u8; 70_000];
         let n: usize = kani::any();
-        kani::assume(n <= 300);
+        kani::assume(n <= 70_000);
         let b: bool = kani::any();
         unsafe { VI_RESULT = b; VI_SEEN = [0u8; 8]; }
         let sig = [0u8; P::SIG_LEN];
